@@ -12,7 +12,7 @@ RULE = ('synthetic extract files built by an independent builder (texts -> codec
         'several tables interleaved (also unknown sub ids / unindexed tables), bodies full length, cut short or empty, printable or '
         'any of the 256 characters; every packaged table and generated layouts passed via param_config=; compressed and expanded; '
         'latin_1 / cp500 (plus cp037); blocked and unblocked; files without trailer, tables without / with empty configuration; '
-        'the same logical rows in both representations; every 4th case also through mci_ipm_param_to_csv; fuzz (model comparison '
+        'the same logical rows in both representations; every 4th case also through mci_ipm_param_to_csv (half of those through its command entry point on real files with --config-file); fuzz (model comparison '
         'only): truncated files, undecodable bytes (ascii, cp1252), duplicate sub ids, index rows after the trailer, layouts with '
         'start < 19, end < start or colliding column names; non-trivial = at least one row returned or the file is refused')
 EXHAUSTIVE = {}
@@ -295,8 +295,43 @@ def read_impl(case, m, f, expanded):
     return 'OK ' + rows_text(rows) + '|' + end
 
 
+def csv_cli(case, m, f, expanded):
+    """the same through the command entry point on real files, the layouts handed over as --config-file"""
+    import contextlib
+    import json
+    import os
+    from cardutil.cli import mci_ipm_param_to_csv as tool
+    base = os.path.join(os.getcwd(), 'c18_%d' % os.getpid())
+    try:
+        with open(base + '.ipm', 'wb') as g:
+            g.write(f)
+        with open(base + '.json', 'w') as g:
+            json.dump({'mci_parameter_tables': lib_cfg(m['cfg'])}, g)
+        args = [base + '.ipm', m['table'], '-o', base + '.csv', '--config-file', base + '.json', '--out-encoding', 'utf8']
+        if case['enc']:
+            args += ['--in-encoding', case['enc']]
+        if not case['blocked']:
+            args.append('--no1014blocking')
+        if expanded:
+            args.append('--expanded')
+        try:
+            with contextlib.redirect_stdout(io.StringIO()):
+                tool.cli_run(**vars(tool.cli_parser().parse_args(args)))
+        except Exception as ex:
+            return 'RAISE ' + exc_class(ex)
+        with open(base + '.csv', 'r', encoding='utf8', newline='') as g:
+            got = list(csv.reader(g))
+        return 'OK ' + cells_text(got[0] if got else [], got[1:]) + '|END'
+    finally:
+        for ext in ('.ipm', '.json', '.csv'):
+            if os.path.exists(base + ext):
+                os.unlink(base + ext)
+
+
 def csv_impl(case, m, f, expanded):
     from cardutil.cli import mci_ipm_param_to_csv as tool
+    if case['seed'] % 2 and m['table'].isalnum():
+        return csv_cli(case, m, f, expanded)
     out = io.StringIO(newline='')
     try:
         tool.mci_ipm_param_to_csv(in_param=io.BytesIO(f), out_csv=out, table_id=m['table'], config=lib_cfg(m['cfg']),
